@@ -8,7 +8,8 @@
 (* immutable (set of a non-mut variable or a parameter), assign (set with  *)
 (* a value of another type), cond (non-bool condition of if/while/assert), *)
 (* rettype, retpath (missing return on some path), field, variant, struct, *)
-(* call (callee is not a function), loopctl (break/continue outside loop). *)
+(* call (callee is not a function), loopctl (break/continue outside loop), *)
+(* unsafe (call of an extern function outside an unsafe block).            *)
 (* Types are records [k, n, a]: k in int bool str void arr struct union    *)
 (* enum tuple fn variant err.                                              *)
 (***************************************************************************)
@@ -147,6 +148,11 @@ TypeOf(P, G, e) ==
                 ELSE LET np == Len(l.t.a) - 1 IN
                      IF Len(ts) # np THEN Err("arity")
                      ELSE IF \E j \in 1..np : ~Compat(l.t.a[j], ts[j]) THEN Err("argtype") ELSE l.t.a[np + 1])
+          ELSE IF FindT(P.externs, e.s) # 0 THEN
+               LET x == P.externs[FindT(P.externs, e.s)] IN
+               IF FindT(G, "@unsafe") = 0 THEN Err("unsafe")           \* 6.4: external calls only in an unsafe context
+               ELSE IF Len(ts) # Len(x.ptyS) THEN Err("arity")
+               ELSE IF \E j \in 1..Len(ts) : ~Compat(x.ptyS[j], ts[j]) THEN Err("argtype") ELSE x.retS
           ELSE IF e.s \in BuiltinsT THEN BuiltinType(e.s, ts)
           ELSE Err("scope")
      [] OTHER -> Err("expr")
@@ -185,6 +191,7 @@ Check(P, G, s, rt, inloop) ==
                           b == Scoped(P, G, s.c, rt, inloop) IN
                       CR(G, ErrOf(t) \cup (IF ~IsErr(t) /\ t # TBool THEN {"cond"} ELSE {}) \cup a.errs \cup b.errs, a.ret /\ b.ret /\ Len(s.c) > 0)
      [] s.k = "block" -> Scoped(P, G, s.b, rt, inloop)
+     [] s.k = "unsafe" -> LET r == CheckSeq(P, Append(G, [n |-> "@unsafe", t |-> TVoid, m |-> 0]), s.b, 1, rt, inloop, {}, FALSE) IN CR(G, r.errs, r.ret)
      [] s.k = "while" -> LET t == TypeOf(P, G, s.a[1])
                              b == Scoped(P, G, s.b, rt, TRUE) IN
                          CR(G, ErrOf(t) \cup (IF ~IsErr(t) /\ t # TBool THEN {"cond"} ELSE {}) \cup b.errs, FALSE)
